@@ -444,7 +444,15 @@ func ruleR9_4(r *Run) {
 				}
 				p := normPath(valuePath(m.X))
 				if p != "" {
-					paths[p]++
+					// one use per pass; a stride hoisted out of the loops is one expression used by both passes
+					uses := 0
+					if refs := bo.Referrers(); refs != nil {
+						uses = len(*refs)
+					}
+					if uses < 1 {
+						uses = 1
+					}
+					paths[p] += uses
 				}
 			}
 		}
